@@ -74,7 +74,10 @@ MailboxFifo ==
   [][\A b \in Mboxes(P) : \A i \in 1..Len(st.mbq[b]) :
         LET c == st.mbq[b][i] IN
         (st.act[c].st = "wait" /\ st'.act[c].st = "run") =>
-            \A j \in 1..(i - 1) : IsSend(st.act[st.mbq[b][j]]) # IsSend(st.act[c])]_vars
+            \* nothing older of the same kind that the peer would also have accepted
+            \A j \in 1..(i - 1) : LET d == st.act[st.mbq[b][j]] IN
+                  IsSend(d) # IsSend(st.act[c])
+                  \/ (IsSend(d) /\ ~Accepts(st'.act[c].flt, d.tag)) \/ (IsRecv(d) /\ ~Accepts(d.flt, st'.act[c].tag))]_vars
 MessFifo ==
   [][\A q \in Mqs(P) : \A i \in 1..Len(st.mqq[q]) :
         LET c == st.mqq[q][i] IN
